@@ -406,6 +406,11 @@ func mutants(t *harness.TxSpec, w *harness.World) []mutant {
 			continue
 		}
 		add(fmt.Sprintf("sig[%d]:attacker-key-only", i), func(c *action.SignedTx) { c.Signatures[i].Signer = attacker.Pub })
+		// the key of a FUNDED account that has nothing to do with the transaction (the fee step charges the
+		// owner of the first signer key: with an unfunded key a forged transaction dies there, for the wrong reason)
+		if by := bystander(t, w); by != nil {
+			add(fmt.Sprintf("sig[%d]:key-of-a-funded-bystander", i), func(c *action.SignedTx) { c.Signatures[i].Signer = by.Pub })
+		}
 		for _, alg := range []keys.Algorithm{keys.ED25519, keys.SECP256K1, keys.ETHSECP, keys.BTCECSECP} {
 			if alg == orig.Signatures[i].Signer.KeyType {
 				continue
@@ -477,6 +482,25 @@ func mutants(t *harness.TxSpec, w *harness.World) []mutant {
 }
 
 // bitflips (thorough): one bit flipped at every byte position of the wire form.
+// bystander returns a funded user of the world that is not a signer of t (nil if there is none).
+func bystander(t *harness.TxSpec, w *harness.World) *harness.Account {
+	if w == nil {
+		return nil
+	}
+next:
+	for _, u := range w.Users {
+		for _, sg := range t.Signers {
+			if sg.Addr.Equal(u.Addr) {
+				continue next
+			}
+		}
+		if u.Pub.KeyType == keys.ED25519 {
+			return u
+		}
+	}
+	return nil
+}
+
 func bitflipCount(t *harness.TxSpec) int { return len(t.Bytes()) }
 
 func c04Payload(h *hist, op int, sigMode string) (name string, wire []byte, orig []byte, err error) {
@@ -525,6 +549,7 @@ func c04Exec(j c04Job) c04Res {
 		return c04Res{Skip: "parsed content unchanged (re-encoding: subject of C05)"}
 	}
 	prefix := noCheck(h.Blocks[:h.Target])
+	warm := strings.HasSuffix(j.Path, "-warm")
 	run := func(extra [][]byte, check []byte) (res []*harness.BlockResult, chk harness.TxRes, dead bool, err error) {
 		hh, _ := buildHist(j.Scn, 0)
 		x, err := harness.StartRun(hh.W)
@@ -535,6 +560,19 @@ func c04Exec(j c04Job) c04Res {
 		for i, b := range noCheck(hh.Blocks[:hh.Target]) {
 			if _, err := x.Block(b); err != nil {
 				return nil, chk, false, fmt.Errorf("prefix block %d: %v", i+1, err)
+			}
+		}
+		if warm {
+			// the node has seen the GENUINE transaction first: checked by its mempool (check path) or checked and
+			// executed in a block of its own (deliver path); the mutant arrives afterwards
+			if c := x.R.CheckTx(orig); c.Code != 0 {
+				return nil, chk, false, fmt.Errorf("warm: the original is not admitted: %s", tail(c.Log, 120))
+			}
+			if check == nil {
+				if _, err := x.BlockAt(harness.BlockSpec{Raw: [][]byte{orig}, NoCheck: true}, true, nil); err != nil {
+					return nil, chk, false, fmt.Errorf("warm: block with the original: %v", err)
+				}
+				prefix = append(noCheck(hh.Blocks[:hh.Target]), harness.BlockSpec{})
 			}
 		}
 		if check != nil {
@@ -552,7 +590,7 @@ func c04Exec(j c04Job) c04Res {
 		return x.Results[len(prefix):], chk, x.R.Dead, nil
 	}
 	out := c04Res{}
-	if j.Path == "check" {
+	if j.Path == "check" || j.Path == "check-warm" {
 		_, chk, dead, err := run(nil, wire)
 		if err != nil {
 			return c04Res{Err: err.Error()}
@@ -607,7 +645,7 @@ func c04(args []string) int {
 			if err := json.Unmarshal(raw, &j); err != nil {
 				return c04Res{Err: err.Error()}
 			}
-			r, ok := confirm(func() c04Res { return c04Exec(j) }, func(r c04Res) bool { return r.Effect != "" || (j.Path == "check" && r.Accepted) })
+			r, ok := confirm(func() c04Res { return c04Exec(j) }, func(r c04Res) bool { return r.Effect != "" || (strings.HasPrefix(j.Path, "check") && r.Accepted) })
 			if !ok {
 				return c04Res{Err: unstableMsg}
 			}
@@ -628,7 +666,7 @@ func c04(args []string) int {
 		r := c04Exec(doc.Case)
 		b, _ := json.MarshalIndent(r, "", " ")
 		harness.Outf("%s\n", b)
-		if (doc.Case.Path == "check" && r.Accepted) || r.Effect != "" {
+		if (strings.HasPrefix(doc.Case.Path, "check") && r.Accepted) || r.Effect != "" {
 			return 1
 		}
 		return 0
@@ -668,6 +706,11 @@ func c04(args []string) int {
 				name = fmt.Sprintf("wire-bitflip@%d", op-len(ms))
 			}
 			jobList = append(jobList, c04Job{Scn: sc.ID(), Op: op, Name: name, Path: "check"}, c04Job{Scn: sc.ID(), Op: op, Name: name, Path: "deliver"})
+			if strings.HasPrefix(name, "sig") {
+				// signature operators once more on a node that has already seen (checked / executed) the genuine
+				// transaction: whatever a node remembers about a verified transaction must not vouch for a variant
+				jobList = append(jobList, c04Job{Scn: sc.ID(), Op: op, Name: name, Path: "check-warm"}, c04Job{Scn: sc.ID(), Op: op, Name: name, Path: "deliver-warm"})
+			}
 		}
 		// the same signature operators on an original signed in the hardware-wallet mode the ED25519 key handler
 		// accepts (hash tag + signature over the digest): another code path of the signature check
@@ -690,10 +733,14 @@ func c04(args []string) int {
 	payloadReasons := map[string]map[string]int{}
 	distinct := map[string]bool{}
 	sigTag := func(j c04Job) string {
+		t := ""
 		if j.Sig != "" {
-			return "|signed=" + j.Sig
+			t = "|signed=" + j.Sig
 		}
-		return ""
+		if strings.HasSuffix(j.Path, "-warm") {
+			t += "|after-the-original-was-seen"
+		}
+		return t
 	}
 	opClass := func(name string) string {
 		// operator class for signatures: strip concrete positions
@@ -726,7 +773,7 @@ func c04(args []string) int {
 		if j.Op%17 == 0 && j.Path == "check" {
 			rep.Sample(map[string]interface{}{"scenario": j.Scn, "operator": j.Name, "path": j.Path, "code": r.Code, "log": r.Log})
 		}
-		if j.Path == "check" {
+		if strings.HasPrefix(j.Path, "check") {
 			if r.Effect != "" {
 				rep.Violation(fmt.Sprintf("C04|checktx-panics|kind=%s|op=%s", sc.Kind, opClass(j.Name))+sigTag(j), fmt.Sprintf("CheckTx of mutant %q of a valid %s: %s", j.Name, sc.Kind, r.Effect), j)
 			} else if r.Accepted {
